@@ -953,7 +953,7 @@ func runSched(t *SchedTrace, pol sched.Policy, schedSeed uint64, replay [][]sche
 		return so
 	}
 	if res.StepCap {
-		so.Violation = viol("no-progress", "step-cap", fmt.Sprintf("the tasks executed more than %d statements without any of them completing an operation (livelock)", sched.StepCap))
+		so.Violation = viol("no-progress", "step-cap", fmt.Sprintf("the %d tasks executed more than %d statements without any of them completing an operation (livelock)", n, sched.StepCapFor(n)))
 		so.Hash = fmt.Sprintf("%x", h.Sum(nil)[:16])
 		return so
 	}
